@@ -75,6 +75,12 @@ CHECKS = {
         'prefix_path returns path[0 .. second-to-last separator] for every position of the separators (std::string operations through sampled contracts with prophecy ghosts); endianness() returns the byte order of the verified platform model.',
    note=PROOF_NOTE + 'std::string is an abstract-value model (trusted); quantified facts are sampled at ghost positions (sound: every real execution is covered, argument in DESIGN.md 3.5). Other platforms\' branches are not compiled here.',
    technique='CBMC code contracts (DFCC) on mechanically lowered xsystem.hpp/xplatform.hpp; modelled readlink and std::string with sampled contracts and prophecy ghosts; native replay installs the binary at long / unusual paths under ASan', design='4 C20'),
+ 'C11': dict(
+   text='xoptional_vector / xoptional_array (value storage + bitset of flags) and xcomplex_vector (real + imaginary vectors): every constructor (incl. the defaulted ones, through a wrapper), the three resize overloads, '
+        'at / operator[] / front / back (const and non-const), size, empty, == and != carry contracts over the abstract sequence of pairs: the LOCKSTEP invariant (both storages well formed, length == size()) is required and re-established, '
+        'element g after the operation is the stated pair for an arbitrary g, proxies designate exactly (&values[i], flag bit i), at() throws exactly for i >= size(), == is true exactly when sizes, values and flags match (ghost witnesses for inequality).',
+   note=PROOF_NOTE + 'int elements, uint8_t flag blocks; sizes up to 10^6 (unbounded in the proof, loop contracts in the vector model). Bitset members enter through their C03 contracts. Iterators of the sequences are exercised by the native replay only (not_reached).',
+   technique='CBMC code contracts (DFCC) on mechanically lowered sequence classes; callee contracts of C03 reused (replace-call-with-contract); native replay of operation histories under ASan', design='4 C11'),
 }
 NA = {
  'C05': 'variant lifetimes under exceptions, placement-new into a recursive union and visitation tables built from lambdas: no C++ exception/lifetime semantics in CBMC and no faithful mechanical lowering; a hand-written model would be a different technique (DESIGN.md 6)',
